@@ -258,9 +258,10 @@ def run_shard(shard, tier, seed):
     if kind == 'cells':
         cl = x86space.cells()[shard[1]:shard[1] + shard[2]]
         for cell in cl:
-            pf = [b'', b'\x66'] if tier == 'quick' else x86space.ALL_SINGLE
-            for b, cls in x86space.strings_for_cell(cell, tier, seed, prefixes=pf):
-                deep = (cls[5] == 'frand') or tier == 'thorough'
+            pf = [b'', b'\x66'] if tier == 'quick' else [b'', b'\x66', b'\x67', b'\xf2', b'\xf3', b'\xf0', b'\x2e', b'\x64']
+            sibs = None if tier == 'quick' else x86space.SIB_QUICK + x86space.SIB_ALL64[::8]
+            for b, cls in x86space.strings_for_cell(cell, tier, seed, prefixes=pf, sibs=sibs, nfill=1 if tier == 'quick' else 2):
+                deep = (cls[5] == 'frand')
                 ins = check_bytes(sh, b, cls='%02x%02x/p%s/mod%d' % (cell[0], cell[1], cls[1], cls[2]), deep=deep)
                 if ins is not None and len(sh.samples) < 2:
                     try:
